@@ -375,6 +375,7 @@ var c02Auth = [][2]string{
 	{"invalid aggregated signer order", "signers-not-increasing"},
 	{"too many aggregated signers", "signers-too-many"},
 	{"invalid tx signature number", "sigmap-count"},
+	{"invalid signature map count", "sigmap-count"},
 	{"invalid signatures map", "both-forms"},
 }
 
